@@ -246,7 +246,8 @@ impl<'c> Gen<'c> {
             1 => {
                 let op = ["+", "-", "*", "+", "-", "max", "min"][self.c.below(7)];
                 let n = 1 + self.c.below(3);
-                let n = if op == "max" || op == "min" { n.max(1) } else { n };
+                // single-operand min/max skip Steel's operand type check: keep to two or more
+                let n = if op == "max" || op == "min" { n.max(2) } else { n };
                 let args = self.operands(n, d - 1, pure_, |g, d, p| g.int(d, p));
                 app(op, args)
             }
@@ -646,6 +647,8 @@ impl<'c> Gen<'c> {
         if d > 0 && self.c.chance(1, 5) {
             // internal definitions: a helper function and/or a constant, siblings may use them
             self.feat("internal-define");
+            // an internal define must not capture a reference that a sibling makes to an outer
+            // variable of the same name (the generator's scope tracking is lexical-outward)
             let nm = self.unused_local_name();
             let pnames = self.distinct_names(1);
             // the name being defined is not usable inside its own definition (letrec* scope)
@@ -700,6 +703,21 @@ impl<'c> Gen<'c> {
             }
             2 => {
                 self.feat("letrec");
+                // letrec names shadowing a visible variable: see KF-C01-define-shadows-constant
+                let names: Vec<String> = if self.avoid("KF-C01-define-shadows-constant") {
+                    let mut out: Vec<String> = vec![];
+                    for _ in 0..n {
+                        let mut nm = self.unused_local_name();
+                        while out.contains(&nm) {
+                            self.fresh += 1;
+                            nm = format!("d{}", self.fresh);
+                        }
+                        out.push(nm);
+                    }
+                    out
+                } else {
+                    names.clone()
+                };
                 // mutually visible pure helper functions
                 for nm in &names {
                     vars.push(VarInfo { name: nm.clone(), ty: Ty::Proc { n: 1, rest: false, pure_: true }, mutable: false, global: false });
